@@ -14,6 +14,7 @@ from cocoasm.virtualfiles.cassette import CassetteFile
 from cocoasm.virtualfiles.disk import DiskFile
 from cocoasm.virtualfiles.binary import BinaryFile
 from cocoasm.virtualfiles.virtual_file_exceptions import VirtualFileValidationError
+from cocoasm import _verif
 
 # C L A S S E S ###############################################################
 
@@ -65,6 +66,8 @@ class VirtualFile(object):
             self.file_exists = True
             self.source_file.read_file()
             self.coco_file_list, virtual_file_type = self.get_coco_files()
+            _verif.emit("Open", exists=True, sniffed=virtual_file_type.name, files=len(self.coco_file_list),
+                        wanted=self.virtual_file_type.name if self.virtual_file_type else "")
             if self.virtual_file_type and self.virtual_file_type != virtual_file_type:
                 raise VirtualFileValidationError("[{}] is not of type {}".format(
                     self.source_file.get_file_name(), virtual_file_type
@@ -79,6 +82,7 @@ class VirtualFile(object):
             cassette_file = CassetteFile()
             cassette_file.add_files(self.coco_file_list)
             if self.file_exists and not append_mode:
+                _verif.emit("Save", kind=self.virtual_file_type.name, exists=self.file_exists, append=append_mode, wrote=False)
                 raise FileExistsError(
                     "Target file [{}] already exists, use --append to overwrite".format(
                         self.source_file.get_file_name()
@@ -86,11 +90,13 @@ class VirtualFile(object):
                 )
             self.source_file.set_buffer(cassette_file.get_buffer())
             self.source_file.write_file()
+            _verif.emit("Save", kind=self.virtual_file_type.name, exists=self.file_exists, append=append_mode, wrote=True)
 
         if self.virtual_file_type == VirtualFileType.BINARY:
             binary_file = BinaryFile()
             binary_file.add_files(self.coco_file_list)
             if self.file_exists and not append_mode:
+                _verif.emit("Save", kind=self.virtual_file_type.name, exists=self.file_exists, append=append_mode, wrote=False)
                 raise FileExistsError(
                     "Target file [{}] already exists, use --append to overwrite".format(
                         self.source_file.get_file_name()
@@ -98,11 +104,13 @@ class VirtualFile(object):
                 )
             self.source_file.set_buffer(binary_file.get_buffer())
             self.source_file.write_file()
+            _verif.emit("Save", kind=self.virtual_file_type.name, exists=self.file_exists, append=append_mode, wrote=True)
 
         if self.virtual_file_type == VirtualFileType.DISK:
             disk_file = DiskFile()
             disk_file.add_files(self.coco_file_list)
             if self.file_exists and not append_mode:
+                _verif.emit("Save", kind=self.virtual_file_type.name, exists=self.file_exists, append=append_mode, wrote=False)
                 raise FileExistsError(
                     "Target file [{}] already exists, use --append to overwrite".format(
                         self.source_file.get_file_name()
@@ -110,6 +118,7 @@ class VirtualFile(object):
                 )
             self.source_file.set_buffer(disk_file.get_buffer())
             self.source_file.write_file()
+            _verif.emit("Save", kind=self.virtual_file_type.name, exists=self.file_exists, append=append_mode, wrote=True)
 
     def add_coco_file(self, coco_file):
         """
